@@ -11,7 +11,8 @@ RULE = ("records = one column each: target_data on the n+1 cell bounds (integers
         "vectors (all columns of a call at once, so column independence is part of every record), a random-data "
         "linearity probe; via the kernel (exhaustive for n <= 2, theta and bins in 0..3) and via Grid.transform with "
         "target_data on bounds or on centres, extra dims, dask chunking of extra dims; non-trivial = distinct "
-        "(theta, bins, route)")
+        "(theta, bins, route)"
+        " Also: the columns laid out over two extra dimensions listed in different orders on the data and on target_data.")
 
 
 def inc_seqs(T):
@@ -50,7 +51,7 @@ def kernel_batch(thetas, bins, rng, tdtype="float64", bin_den=1, affine=(0.0, 1.
 
 
 def grid_batch(thetas, bins, rng, centres, chunk, extra_first, names=None, tdtype="float64", bin_den=1, bypass=None,
-               affine=(0.0, 1.0), td_default=False, more_pos=()):
+               affine=(0.0, 1.0), td_default=False, more_pos=(), split=False):
     """the same through Grid.transform: columns along an extra dimension"""
     import numpy as np
     import xarray as xr
@@ -80,8 +81,24 @@ def grid_batch(thetas, bins, rng, centres, chunk, extra_first, names=None, tdtyp
     # bypass_checks is documented to apply to the linear and log methods only: it must change nothing here
     more = {} if bypass is None else {"bypass_checks": bool(bypass)}
 
+    # the columns laid out over TWO extra dimensions, listed in one order on the data and in another on target_data:
+    # columns are matched by dimension name, never by where a dimension stands
+    shape2 = {2: (2, 1), 3: (1, 3), 4: (2, 2)}.get(ncol) if split and not td_default else None
+    if shape2:
+        perm_da = rng.sample([nm("ca"), nm("cb"), nm("zc")], 3)
+        perm_td = rng.sample([nm("ca"), nm("cb"), tdim], 3)
+
     def run(phi, bb=None):
         bb = b if bb is None else bb
+        if shape2:
+            da = xr.DataArray(phi.reshape(shape2 + (n,)), dims=(nm("ca"), nm("cb"), nm("zc")), name=nm("phi")).transpose(*perm_da)
+            td = xr.DataArray(th.reshape(shape2 + (th.shape[1],)), dims=(nm("ca"), nm("cb"), tdim), name=nm("theta")).transpose(*perm_td)
+            if chunk:
+                da, td = da.chunk({nm("ca"): 1}), td.chunk({nm("cb"): 1})
+            res = grid.transform(da, nm("Z"), bb, target_data=td, method="conservative", **more)
+            newdim = [d for d in res.dims if d not in (nm("ca"), nm("cb"))]
+            res = res.transpose(nm("ca"), nm("cb"), *newdim)
+            return np.asarray(res.values).reshape(ncol, -1), newdim
         da = xr.DataArray(phi if extra_first else phi.T, dims=(nm("col"), nm("zc")) if extra_first else (nm("zc"), nm("col")), name=nm("phi"))
         td = tdata
         if chunk:
@@ -134,7 +151,8 @@ def execute(job):
             W, phis, lin, lin_rev, newdim = grid_batch(job["thetas"], job["bins"], rng, centres, job.get("chunk", False),
                                                        job.get("extra_first", True), None, job.get("tdtype", "float64"),
                                                        job.get("bin_den", 1), job.get("bypass"), tuple(job.get("affine", (0.0, 1.0))),
-                                                       bool(job.get("td_default")), tuple(job.get("more_pos", ())))
+                                                       bool(job.get("td_default")), tuple(job.get("more_pos", ())),
+                                                       bool(job.get("split")))
             scale = 2 if centres else 1
             if centres:
                 thetas = []
@@ -201,7 +219,7 @@ def gen_jobs(rng, thorough):
                      "tdtype": tdtype, "affine": list(affine), "td_default": td_default,
                      "more_pos": rng.sample(["left", "right", "inner"], rng.choice([0, 0, 1, 2])) if n >= 2 else [],
                      "bypass": rng.choice([None, None, True, False]) if via != "kernel" else None,
-                     "chunk": rng.random() < 0.4, "extra_first": rng.random() < 0.5})
+                     "chunk": rng.random() < 0.4, "extra_first": rng.random() < 0.5, "split": rng.random() < 0.35})
     return jobs
 
 
